@@ -13,8 +13,8 @@ import random
 
 from harness.core import (model_check, read_events, require, run_driver, seed, selftest_trace, spec_mutant, validate_trace, work_dir)
 
-QUICK_THEORIES = ["logic_base", "set"]
-MORE = ["logic", "nat", "function", "list", "int", "real", "expr", "hoare"]
+QUICK_THEORIES = ["logic", "set"]   # see harness/checks/c13.py
+MORE = ["nat", "function", "list", "int", "real", "expr", "hoare"]
 
 
 def run(rep, tier):
